@@ -458,12 +458,12 @@ def model_phase(ctx):
     jobs = []
     if ctx.quick:
         jobs.append(dict(cfg="ModelFit_quick.cfg", note="n<=4 rows, weak orders of the direction feature, all perms, "
-                                                        "both switches, thr {1/2, 0.3701, 1}, 1..3 iterations"))
+                                                        "both switches, thr {1/2, 1}, 1..3 iterations"))
     else:
         jobs.append(dict(cfg="ModelFit_thorough.cfg", timeout=3300,
                          note="n<=5 rows, strict orders of the direction feature, all perms, both switches, "
-                              "thr {1/4, 0.3701, 1/2, 1}, 1..3 iterations"))
-        jobs.append(dict(cfg="ModelFit_quick.cfg", note="n<=4 rows, weak orders, thr {1/2, 0.3701, 1}"))
+                              "thr {1/4, 1/2}, 1..3 iterations"))
+        jobs.append(dict(cfg="ModelFit_mid.cfg", note="n<=4 rows, weak orders, thr {1/2, 0.3701, 1}"))
         jobs.append(dict(cfg="ModelFit_asis_shuffled4.cfg", note="code as it stands restricted to shuffle=TRUE, n<=4"))
     jobs.append(dict(cfg="ModelFit_asis.cfg", expect_violation="LabelsAligned",
                      note="AsIs_UnconditionalUnshuffle (model.py:312,316 as they stand): held labels misaligned"))
@@ -483,7 +483,7 @@ def model_phase(ctx):
     def one(j):
         j = dict(j)
         cfg = j.pop("cfg")
-        big = cfg in ("ModelFit_quick.cfg", "ModelFit_thorough.cfg", "ModelFit_asis_shuffled4.cfg")
+        big = cfg in ("ModelFit_quick.cfg", "ModelFit_mid.cfg", "ModelFit_thorough.cfg", "ModelFit_asis_shuffled4.cfg")
         return ctx.model_check("ModelFit", cfg, workers="auto" if big else 2, parse_prints=False, **j)
     with ThreadPoolExecutor(max_workers=len(jobs)) as ex:
         res = list(ex.map(one, jobs))
@@ -495,7 +495,7 @@ def build_cases(ctx, rng):
     gen_states = 0
     plan = [("ModelFit_gen3.cfg", {}, None)]            # n <= 3: every run
     if ctx.quick:
-        plan.append(("ModelFit_gen4s.cfg", {}, 2400))     # n = 4: TLC's fixed 1/29 hash sample of the inputs
+        plan.append(("ModelFit_gen4s.cfg", {}, 1800))     # n = 4: TLC's fixed 1/29 hash sample of the inputs
     else:
         plan.append(("ModelFit_gen4.cfg", {}, 30000))     # n = 4: every run explored, a seeded sample driven
         plan.append(("ModelFit_gen5s.cfg", {}, 8000))     # n = 5 (strict direction feature): 1/149 hash sample
